@@ -81,7 +81,14 @@ func NewLevelListFromDocument(fs storage.FileSystem, dataOwnership kv.DataOwners
 }
 
 func (ll *LevelList) Get(key []byte) (kv.Entry, error) {
+	// L0 tables overlap, so the newest version among the L0 tables wins. Deeper
+	// levels hold older data and at most one table per level can have the key.
+	var newest kv.Entry
+	l0 := ll.At(0).tables
 	for t := range ll.AllTablesForKey(key) {
+		if newest != nil && !l0.Has(t) {
+			break
+		}
 		v, err := t.Get(key)
 		if err != nil {
 			if err == kv.ErrNotFound {
@@ -89,7 +96,15 @@ func (ll *LevelList) Get(key []byte) (kv.Entry, error) {
 			}
 			return nil, fmt.Errorf("table %#v, %w", t, err)
 		}
-		return v, nil
+		if !l0.Has(t) {
+			return v, nil
+		}
+		if newest == nil || v.SeqNum() > newest.SeqNum() {
+			newest = v
+		}
+	}
+	if newest != nil {
+		return newest, nil
 	}
 	return nil, kv.ErrNotFound
 }
